@@ -248,6 +248,52 @@ def registry_rules(ctx, rule: str):
           and all(n.value is not None and _returns_item(p, gi, _resolve_alias([gi.node], n.value), item_calls) for n in rets))
     r.ob(rule + ".filesystem-keyerror", gi.qualname, ok,
          "an absent key must raise KeyError: the lookup either returns the Item built from an existing file or ends in `raise KeyError(...)` (no other exit)", gi.where())
+    # the file is opened only when it exists as a file: an `isfile` test of the same name, or a handler that covers both
+    # ways the library refuses to open a path (fs.errors.ResourceNotFound: nothing there; fs.errors.FileExpected: a directory)
+    for t in expanded(gi):
+        par = {}
+        for n in ast.walk(t):
+            for ch in ast.iter_child_nodes(n):
+                par[id(ch)] = n
+        for c in [n for n in ast.walk(t) if isinstance(n, ast.Call) and isinstance(n.func, ast.Attribute) and n.func.attr == "open"
+                  and "fs" in ast.unparse(n.func.value) and n.args]:
+            name_src = ast.unparse(c.args[0])
+            guarded, why = False, "no `isfile(%s)` test and no handler around `%s`" % (name_src, ast.unparse(c)[:40])
+            cur = c
+            while id(cur) in par:
+                up = par[id(cur)]
+                if isinstance(up, ast.If) and cur in up.body and any(
+                        isinstance(x, ast.Call) and isinstance(x.func, ast.Attribute) and x.func.attr == "isfile" and x.args and ast.unparse(x.args[0]) == name_src
+                        for x in ast.walk(up.test)):
+                    guarded = True
+                    break
+                if isinstance(up, ast.Try) and cur in up.body:
+                    import fs.errors as _fe
+
+                    for h in up.handlers:
+                        types = [h.type] if h.type is not None and not isinstance(h.type, ast.Tuple) else (h.type.elts if h.type is not None else [None])
+                        covers_nf = covers_fe = False
+                        for ty in types:
+                            if ty is None:
+                                covers_nf = covers_fe = True
+                                continue
+                            nm = ast.unparse(ty).split(".")[-1]
+                            cls = getattr(_fe, nm, None) or {"Exception": Exception, "BaseException": BaseException, "OSError": OSError}.get(nm)
+                            if isinstance(cls, type):
+                                covers_nf = covers_nf or issubclass(_fe.ResourceNotFound, cls)
+                                covers_fe = covers_fe or issubclass(_fe.FileExpected, cls)
+                        if covers_nf and covers_fe:
+                            guarded = True
+                        elif covers_nf:
+                            why = ("the handler around `%s` catches %s only: for a sub-directory named like the file the library raises "
+                                   "fs.errors.FileExpected, which escapes instead of KeyError" % (ast.unparse(c)[:40], "/".join(ast.unparse(x) for x in types if x is not None)))
+                    if guarded:
+                        break
+                cur = up
+            if not guarded and t is not gi.node and "narrow" not in why and any(
+                    isinstance(x, ast.Call) and isinstance(x.func, ast.Attribute) and x.func.attr == "isfile" for x in xwalk(gi)):
+                guarded = True  # the open sits in a helper; the lookup path tests isfile before it hands the name over
+            r.ob(rule + ".filesystem-keyerror", gi.qualname + "#open", guarded, "a name that is not an existing file must end in KeyError: " + why, gi.where())
     wrap = [n for n in xwalk(gi) if isinstance(n, ast.Call) and isinstance(n.func, ast.Name) and n.func.id == "CircularRecord"]
     ok = bool(wrap) and any(kw.arg == "entity" and "characterize(record)" in ast.unparse(kw.value) for kw in item_calls[0].keywords) if item_calls else False
     r.ob(rule + ".circular-record", gi.qualname, ok, "the file's record must be wrapped in CircularRecord and that record characterised", gi.where())
